@@ -119,6 +119,7 @@ func cmdCheck(args []string) int {
 	tier := fs.String("tier", envOr("VERIF_TIER", "quick"), "quick|thorough")
 	repo := fs.String("repo", envOr("NPVERIF_REPO", "/repo"), "repository under analysis")
 	verif := fs.String("verif", envOr("NPVERIF_DIR", "/verif"), "verification directory")
+	dump := fs.String("dump", "", "print every obligation of this rule (prefix match), discharged ones included")
 	_ = fs.Parse(args)
 	if *tier != "quick" && *tier != "thorough" {
 		*tier = "quick"
@@ -169,6 +170,13 @@ func cmdCheck(args []string) int {
 		}
 		for _, l := range out.Lines {
 			fmt.Println(l)
+		}
+		if *dump != "" {
+			for _, o := range rep.Obs {
+				if strings.HasPrefix(o.Rule, *dump) {
+					fmt.Printf("OBLIGATION %s rule=%s at %s: %s :: %s\n", o.Status, o.Rule, o.Pos, o.Construct, o.Reason)
+				}
+			}
 		}
 		fmt.Printf("%s %s: %d obligations, %d violations, %d known findings (%.1fs)\n", pr.ID, *tier, len(rep.Obs), len(out.Violations), len(out.Known), time.Since(t0).Seconds())
 		if out.ExitCode != 0 {
